@@ -204,8 +204,11 @@ func (c *Ctx) checkFixtures(info *propInfo) (map[string]int, []string) {
 					continue
 				}
 				for _, m := range markerRe.FindAllStringSubmatch(fd.Doc.Text(), -1) {
-					nMarkers++
 					kind, rule := m[1], m[2]
+					if _, run := c.Floors[rule]; !run {
+						continue // a rule this property does not run
+					}
+					nMarkers++
 					nViol, nAny := 0, 0
 					for _, o := range c.Obs {
 						if o.Rule == rule && o.tpos >= fd.Pos() && o.tpos <= fd.End() {
